@@ -7,7 +7,7 @@
     state, i.e. along every interleaving. *)
 From Coq Require Import List Arith Lia Bool Permutation.
 Import ListNotations.
-From TB Require Import ExecModel ExecProofs BalanceModel BalanceProofs.
+From TB Require Import ExecModel ExecProofs BalanceModel BalanceProofs ExecRun ExecRunProofs.
 
 Section C05.
 Variable piece : Type.
@@ -63,6 +63,16 @@ Theorem C05_balance_even a f f' i j : B a f f' -> i <= j -> j < a -> length (f' 
 Proof. exact (balanced_mono piece nfiles gid a f f' i j). Qed.
 End C05.
 
+(** The tie to the code: the synchronisation log of a real run of executor::run (lock / try_lock /
+    unlock of the queue locks and of the execution-state lock, piece scope markers, queue dumps
+    after every balance) is replayed through the extracted [xrun]; every log it accepts is a path
+    of the transition system above from its initial state - with pieces numbered, [nfiles] / [gid]
+    the number of files of a piece and the id of its first file. *)
+Theorem C05_accepted_log_is_model_path n nfiles gid q0 evs x' : length q0 = n ->
+  xrun n nfiles gid (xinit n q0) evs = Some x' ->
+  exists s', ExecModel.reach nat n (balanced nfiles gid) (ExecModel.init nat n (qfun q0)) s' /\ R n x' s'.
+Proof. exact (accepted_log_is_model_path n nfiles gid q0 evs x'). Qed.
+
 Print Assumptions C05_work_conserved.
 Print Assumptions C05_exactly_once.
 Print Assumptions C05_deadlock_free.
@@ -70,3 +80,4 @@ Print Assumptions C05_terminates.
 Print Assumptions C05_balance_moves_every_item.
 Print Assumptions C05_balance_outside_untouched.
 Print Assumptions C05_balance_even.
+Print Assumptions C05_accepted_log_is_model_path.
